@@ -72,12 +72,15 @@ CLAIMS = {
    text='Static analysis of the structure of one chain-reduction step, valid for every complex, pivot strategy and schedule: the block expressions of the Schur reduction (read from the code) satisfy s = d - c a^-1 b, F_tgt*M*B_src = s, F*B = 1 and the chain-map conditions as identities of the free non-commutative algebra, and the step applies the column permutation to everything on C_i and the row permutation to everything on C_{i+1} (neighbouring differentials, accumulated transforms, tracked vectors) with the same rank, degrees and source/target transforms; merged transforms compose in a fixed order; no float decides a value. That the reduced complex has the same homology, that the triangular solvers and pivot permutations are correct, and the concurrency clauses (C11/C12) are NOT decided here.',
    ref='DESIGN.md §3 E17, E18, E10b; §4 C08',
    note='Trusted: contracts of solve_triangular(_left), SpMat::permute, Trans::append_perm/merge.'),
+ 'C07': dict(cat='other', tech='static analysis: block/range algebra on the coordinate-map assembly read from MIR; flag-use agreement; formula extraction',
+   text='Static analysis of how the homology record is assembled from the two Smith normal forms, valid for every pair (d_in, d_out), ring and flag: by range algebra on the row/column ranges taken from each transform and its inverse, the chain->homology map P and the homology->chain map Q satisfy P*Q = 1 (coordinates of the generators are the standard basis); d_out is restricted with exactly the columns Q uses; every unwrapped transform was requested under the same condition; rank = n - rank(d_in) - rank(d_out), torsion = non-unit factors of d_in; no float. That generators are cycles, boundaries map to zero, and SNF itself (C09) are NOT decided.',
+   ref='DESIGN.md §3 E19; §4 C07',
+   note='Trusted: SNF transforms mutually inverse (C09); divisibility chain orders unit factors first; submat/stack/concat semantics.'),
 }
 
 NA = {
  'C02': 'invariance under Reidemeister/braid moves quantifies over pairs of diagrams and compares computed homology tables; no clause is a shape property of the source beyond the crossing tables decided under C18',
  'C03': 'universal-coefficient relations are arithmetic between ranks/torsion computed at run time; no static argument in reach bounds them',
- 'C07': 'rank/torsion/coordinate-map correctness is linear algebra on runtime values (products of SNF outputs); no structural necessary condition beyond what shape asserts already enforce',
 }
 PENDING = 'not claimed at this commit: its static check (DESIGN.md §4) is still being built'
 
